@@ -93,9 +93,15 @@ func c01Check(c *Ctx, doc *XElem, rv int, cfg Cfg, allEntry bool) {
 	cas := func() interface{} { return c01Case{Doc: doc, Rv: rv, Cfg: cfg, Text: xmlText, Pol: rt.OrderPolicy} }
 	var m mxj.Map
 	var err error
-	st, pan := protect(func() { m, err = mxj.NewMapXml([]byte(xmlText), cfg.Cast) })
+	var gw []string
+	st, pan := protect(func() { gw = globalWrites(func() { m, err = mxj.NewMapXml([]byte(xmlText), cfg.Cast) }) })
 	c.S.Transitions++
 	c.S.Validated++
+	if len(gw) > 0 {
+		// informational only: a decoder that writes package state (a cache, a pool) is not wrong by
+		// itself; its effect on later calls is what the history passes and the retained-result oracle test
+		c.Count("decodes_that_wrote_package_state", 1)
+	}
 	if pan {
 		c.Violate("NewMapXml", "panic", c01Shape(doc), cas, nil, st)
 		return
@@ -112,6 +118,20 @@ func c01Check(c *Ctx, doc *XElem, rv int, cfg Cfg, allEntry bool) {
 	c.Outcome(dump(got))
 	if !allEntry {
 		return
+	}
+	// a second decode of the same text is an independent value: equal, sharing no map or list with the first
+	if m2, err2 := mxj.NewMapXml([]byte(xmlText), cfg.Cast); err2 != nil || !deepEq(normSeq(map[string]interface{}(m2)), exp) {
+		c.Violate("NewMapXml", "second-decode-differs", c01Shape(doc), cas, nil, fmt.Sprintf("xml=%q: decoding the same text again gives %s (err=%v), first gave %s", xmlText, dump(m2), err2, dump(got)))
+	} else {
+		a, b := map[uintptr]bool{}, map[uintptr]bool{}
+		rt.Containers(map[string]interface{}(m), a)
+		rt.Containers(map[string]interface{}(m2), b)
+		for p := range a {
+			if b[p] {
+				c.Violate("NewMapXml", "decodes-share-structure", c01Shape(doc), cas, nil, fmt.Sprintf("xml=%q: two decodes of the same text share a map or list", xmlText))
+				break
+			}
+		}
 	}
 	// the other entry points must agree with NewMapXml
 	type ep struct {
@@ -267,7 +287,7 @@ func c01Cfgs(maxDev int) []Cfg {
 
 func c01Run(c *Ctx) {
 	mustBeDefault(c)
-	c.S.Rule = "cases = (document, rendering, configuration): documents are all element trees with <= N elements (child names over {a,b}, fan-out <= 3) decorated with <= D decorations (attribute incl. namespaced/case/snake variants and a name colliding with a child under an empty prefix; one text run at every position, plain or CDATA, with blanks/specials/number and boolean look-alikes; comment / processing instruction at every position; renamed element: case, hyphen/underscore, namespace prefix); every document x all 768 configurations (3 attribute prefixes x 2 key prefixes x 2^7 of lower, snake, simple-as-map, keep-spaces, seq numbers, decoder escaping, cast) for <= 1 decoration, and x all configurations with <= 2 option deviations for 2 decorations; plus all 8 combinations of the cast-to-int/float/bool sub-options with the cast flag on; rendering variants (empty-element form, quoting, blanks in tags, inter-element whitespace, prolog, character references) explored one deviation at a time. non-trivial = expected Map contains a list, a text key or an attribute."
+	c.S.Rule = "cases = (document, rendering, configuration): documents are all element trees with <= N elements (child names over {a,b}, fan-out <= 3) decorated with <= D decorations (attribute incl. namespaced/case/snake variants and a name colliding with a child under an empty prefix; one text run at every position, plain or CDATA, with blanks/specials/number and boolean look-alikes; comment / processing instruction at every position; renamed element: case, hyphen/underscore, namespace prefix); every document (quick: trees with fewer than N elements) x all 768 configurations (3 attribute prefixes x 2 key prefixes x 2^7 of lower, snake, simple-as-map, keep-spaces, seq numbers, decoder escaping, cast) for <= 1 decoration, and x all configurations with <= 2 option deviations for 2 decorations; plus all 8 combinations of the cast-to-int/float/bool sub-options with the cast flag on; rendering variants (empty-element form, quoting, blanks in tags, inter-element whitespace, prolog, character references) explored one deviation at a time. non-trivial = expected Map contains a list, a text key or an attribute."
 	c.S.Assumptions = []string{"reference decode conventions in harness/ref_xml.go, computed from the abstract tree", "_seq accepted as int or digit string", "attribute values containing tab/newline are rendered as character references"}
 	maxElems, maxElems2 := 4, 3
 	if c.Thorough {
@@ -281,13 +301,17 @@ func c01Run(c *Ctx) {
 		rv  int
 	}
 	// Phase A: <= 1 decoration, all configurations. Documents are generated once, configurations outermost.
-	var docsA []job
+	var docsA, docsA2 []job
 	for n := 1; n <= maxElems; n++ {
 		for _, base := range baseTrees(n, "r", []string{"a", "b"}, 3) {
-			docsA = append(docsA, job{base, rvDefault})
+			dst := &docsA
+			if n == maxElems && !c.Thorough {
+				dst = &docsA2 // quick: the largest trees meet the configurations with <= 2 option deviations only
+			}
+			*dst = append(*dst, job{base, rvDefault})
 			for _, d := range c01Decos(base, c.Thorough) {
 				if doc, ok := applyDecos(base, []Deco{d}); ok && !c01OutOfUniverse(doc) {
-					docsA = append(docsA, job{doc, rvDefault})
+					*dst = append(*dst, job{doc, rvDefault})
 				}
 			}
 		}
@@ -307,7 +331,7 @@ func c01Run(c *Ctx) {
 		}
 	}
 	if c.Shard == 0 {
-		c.Count("documents_le1_decoration", int64(len(docsA)))
+		c.Count("documents_le1_decoration", int64(len(docsA)+len(docsA2)))
 		c.Count("documents_2_decorations", int64(len(docsB)))
 		c.Count("configurations", int64(len(allCfgs)))
 	}
@@ -366,14 +390,27 @@ func c01Run(c *Ctx) {
 		}
 	}
 	run(allCfgs, docsA, "A")
+	run(cfgs2, docsA2, "A-largest-trees")
 	run(cfgs2, docsB, "B")
 	run(c01CastCfgs(), docsA, "A-cast-suboptions")
+	// history pass: the same decodes again with the configurations visited in the opposite order, so
+	// that state a decoder may keep between calls (a key cache, a memo table) meets every
+	// configuration both before and after its neighbours
+	var small []job
+	for _, j := range docsA {
+		if len(j.doc.elems()) <= 2 {
+			small = append(small, j)
+		}
+	}
+	rev := append([]Cfg(nil), cfgs2...)
+	for i, j := 0, len(rev)-1; i < j; i, j = i+1, j-1 {
+		rev[i], rev[j] = rev[j], rev[i]
+	}
+	run(rev, small, "history-reverse-configuration-order")
 	// map-order: the decoder only ranges over singleton maps; explore reverse order on phase A / default cfg anyway
 	rt.OrderPolicy = rt.PolicyReverse
 	run(c01Cfgs(1), docsA, "A-reverse-order")
 	rt.OrderPolicy = rt.PolicySorted
 	resetOptions()
-	if d := stateDiff(); d != "" {
-		c.Broken("options not restored: %s", d)
-	}
+	// (the end-of-run state comparison is done for every property in main.go)
 }
